@@ -541,12 +541,18 @@ func main() {
 		return
 	}
 	r := vf.NewRun("C34", "exploration",
-		"clusters of real vbft.Server processes (N=4,C=1 and N=7,C=2) connected through a hub that applies a seeded schedule: random delays (reordering), loss, duplication, intermittent partitions of the honest nodes, and <=C Byzantine peers run either as equivocating twins (two processes with the same key, each face shown to a different audience) or as a withholding peer; every honest node's sealed (height, block hash) history is read through its ledger; verdict = agreement at every height. A run is non-trivial when >=2 honest nodes sealed >=1 common height; distinct by (cluster, schedule, height range)")
+		"(1) in-process single-height games: every honest node is a real vbft.Server without goroutines/network/ledger whose real message, timer and action handlers are pumped one event at a time; a seeded scheduler is the asynchronous network (order, delay, duplication), decides which armed timer expires, and plays <=C faulty peers that send well-formed signed proposals (also several different ones), endorsements and commits about any known block to any subset (strategies: random, split-brain camps, mostly quiet); verdict = all SealBlock decisions of honest nodes in a game name one block. (2) clusters of real vbft.Server processes (N=4,C=1 and N=7,C=2) connected through a hub that applies a seeded schedule: random delays (reordering), loss, duplication, intermittent partitions of the honest nodes, and <=C Byzantine peers run either as equivocating twins (two processes with the same key, each face shown to a different audience) or as a withholding peer; every honest node's sealed (height, block hash) history is read through its ledger; verdict = agreement at every height. A run is non-trivial when >=2 honest nodes sealed >=1 common height; distinct by (cluster, schedule, height range)")
 	scratch := vf.Scratch("c34")
 	if os.Getenv("VERIF_C34_KEEPLOG") != "" {
 		fmt.Fprintln(os.Stderr, "c34: keeping", scratch)
 	} else {
 		defer os.RemoveAll(scratch)
+	}
+	if only := os.Getenv("VERIF_C34_ONLY"); only == "" || only == "sim" {
+		runSim(r, vf.NewRNG(vf.Seed()).Sub(4242))
+		if only == "sim" {
+			r.Finish()
+		}
 	}
 	blockMs := uint32(600)
 	wall := 40 * time.Second
